@@ -1991,7 +1991,7 @@ func (app *App) repairCascadeNode(node *mysql.Node, clusterState map[string]*nod
 		// As a result, we know that myGTIDs fetched AFTER candidate's GTIDs...
 		// We should wait until myGTIDs (fetched later) are lower or equal to candidateGTIDs (fetched earlier)
 		mySlaveStatus, err := node.GetReplicaStatus() // retrieve fresh GTIDs
-		if err != nil {
+		if err != nil || mySlaveStatus == nil {
 			app.logger.Warn().Msgf("repair: cannot obtain own SLAVE/REPLICA STATUS")
 			return
 		}
@@ -2138,7 +2138,7 @@ func (app *App) performChangeMaster(host, master string) error {
 			app.logger.Warn().Msgf("changemaster: failed to get slave status on host %s: %v", host, err)
 			continue
 		}
-		if sstatus.ReplicationRunning() {
+		if sstatus != nil && sstatus.ReplicationRunning() {
 			break
 		}
 		app.logger.Warn().Msgf("changemaster: replication on host %s is not running yet, waiting...", host)
